@@ -34,6 +34,10 @@ impl Rng {
     pub fn fork(&mut self) -> Rng {
         Rng(self.next())
     }
+    /// an independent stream (for a thread's own choices)
+    pub fn fork_stream(&mut self) -> Rng {
+        Rng(self.next() ^ 0x5bd1_e995_9e37_79b9)
+    }
 }
 
 pub type K = Vec<u8>;
